@@ -269,6 +269,64 @@ def check_dynamic(spec, ctx):
     ctx.nontrivial = True
 
 
+def check_object_history(spec, ctx):
+    """One VForm OBJECT over time: its key is requested (hash() or a compile that hits the in-process cache and therefore does
+    not finalize the object), then a further term is added to the same object.  Either the addition is refused, or every later
+    request - for this object and for a fresh copy of the short form - gets an assembler that implements the requested form."""
+    from pyiga import compile as pc
+    full = spec["form"]
+    if len(full["terms"]) < 2:
+        raise Skip("single-term form")
+    short = dict(full)
+    short["terms"] = full["terms"][:1]
+    built = gf.build_data(full)
+    try:
+        _, Ms, ss = C01.reference(short, built)
+        _, Mf, sf = C01.reference(full, built)
+        pc.generate(gf.build_vform(short))
+        pc.generate(gf.build_vform(full))
+    except (rf.FormError,) + REJECT:
+        raise Skip("form rejected")
+    if not (np.all(np.isfinite(Ms)) and np.all(np.isfinite(Mf))):
+        raise Skip("non-finite reference")
+    vf, b = gf.build_vform(short, return_builder=True)
+    if spec["op"] == "hash":
+        ctx.sut(vf.hash, what="VForm.hash")
+    else:
+        ctx.sut(pc.compile_vform, gf.build_vform(short), what="compile_vform (warm the in-process cache)")
+        Asm0 = ctx.sut(pc.compile_vform, vf, what="compile_vform (cache hit)")
+        C01.check_one(ctx, short, Asm0, built, Ms, ss, "single")
+    try:
+        vf.add(b(full["terms"][1]))
+        added = True
+    except (RuntimeError, ValueError, TypeError) as e:
+        added = False
+        ctx.flag("add_refused_after_key_request")
+    if added:
+        ctx.flag("add_accepted_after_key_request")
+        Asm1 = ctx.sut(pc.compile_vform, vf, what="compile_vform (extended object)")
+        try:
+            C01.check_one(ctx, full, Asm1, built, Mf, sf, "single")
+        except Violation as v:
+            raise Violation("object_history", "a term added after the key of the object had been requested is not reflected by "
+                            "the assembler returned for the object: %s" % v, **v.detail)
+        Asm2 = ctx.sut(pc.compile_vform, gf.build_vform(short), what="compile_vform (fresh short form)")
+        try:
+            C01.check_one(ctx, short, Asm2, built, Ms, ss, "single")
+        except Violation as v:
+            raise Violation("object_history", "a fresh copy of the short form gets the assembler of the extended object: %s" % v,
+                            **v.detail)
+    ctx.flag("op_" + spec["op"])
+    ctx.nontrivial = True
+
+
+@st.composite
+def strat_history(draw):
+    f = draw(gf.form(depth=1, max_terms=2, dims=(1, 2), allow_vec=False, allow_two_space=False,
+                     kinds=("volume", "volume", "gw")))
+    return {"form": f, "op": draw(st.sampled_from(["hash", "compile"]))}
+
+
 @st.composite
 def strat_dynamic(draw):
     f = draw(gf.form(depth=1, max_terms=1, dims=(1, 2)))
@@ -452,6 +510,10 @@ SUBCHECKS = [
         timeout_q=900, timeout_t=7000, max_shrink_calls=4,
         rule="compile A, B, A, B in one process (and B, A, B, A): each returned class assembles ITS form (C01 oracle), cache hits "
              "return the identical class, module name = digest of the source"),
+    Sub("object_history", check_object_history, strategy=lambda tier: strat_history(), quick=48, thorough=480, shards=8, isolate=True,
+        floor=4, timeout_q=600, timeout_t=6000, max_shrink_calls=8,
+        rule="one VForm object: key requested (hash() / cache-hit compile), then a term is added to the same object: refused, or "
+             "all later requests (the object, a fresh copy of the short form) get assemblers of the requested forms"),
     Sub("freshness", check_fresh, enum=enum_fresh, quick=0, thorough=0, shards=4, floor=2, timeout_q=600,
         rule="regenerate assemblers.pyx / genericasm.pxi under PYTHONHASHSEED 0..3 and compare with the shipped files"),
     Sub("preseeded", check_predef, strategy=lambda tier: strat_predef(), quick=64, thorough=800, shards=8, isolate=True, floor=10,
